@@ -1,5 +1,5 @@
 """C02 - lowest cloud layer and ceiling are never suppressed; NCD / NSC mean what they say."""
-from sa.rules import message, significance, flag, metarize, params
+from sa.rules import message, significance, flag, metarize, params, ownership, screening
 
 LEVEL = 'other'
 
@@ -12,6 +12,11 @@ def check(ctx):
     metarize.sorted_before_significance(ctx, 'C02-R4')
     # R5: the MSA asked for per call (None = no MSA included) is the MSA the chunk works with
     params.merge_routine(ctx, 'C02-R5')
+    # R6: the MSA the message is cut at is the MSA the hits were cropped with (= C01-R9 / C11-R4)
+    ownership.owned_fields(ctx, 'C02-R6')
+    # R7: the screening hands the hits on as they came (casts and column drops only, = C15-R2): hits it blanks are missing
+    # from the count that decides NCD / NSC
+    screening.normalisation(ctx, 'C02-R7', 'C02-R7')
     ctx.extra['explanation'] = (
         'With the table sorted by base (R4) and no row reported, a layer of >= 1 okta exists iff a significant row '
         'sits at/above the MSA, because the first >= 1 okta row is always flagged (R1); the exits of metar_msg are '
